@@ -386,6 +386,40 @@ def main(ctx):
                 bounds=dict(n="1..200 + %r" % (sorted(set(ns) - set(range(1, 201))),),
                             intervals=ivs, intervals_n_le_20=INTERVALS_SMALL_N))
 
+    # ------------------------------------------------------------ parameters in other numeric types
+    # n as numpy integers of every width / 0-d array / integral float where accepted, the end points as float32, Python
+    # and numpy integers: abscissae and weights must be bit-identical to the call with Python int / float of the same
+    # value (a type that is loudly rejected with TypeError is not a wrong answer)
+    def one_rule_typed(case, rec):
+        a, b, n, what, form = case
+        conv = {"i1": np.int8, "u1": np.uint8, "i2": np.int16, "i4": np.int32, "i8": np.int64, "u8": np.uint64, "f4": np.float32, "f8": np.float64,
+                "0d": lambda v: np.array(v), "pyint": int}[form]
+        try:
+            xr, wr = gauleg(float(a), float(b), int(n))
+        except Exception as e:
+            return rec.fail(case, "reference call raised %s: %s" % (type(e).__name__, e))
+        args = [a, b, n]
+        if what == "n":
+            args[2] = conv(n)
+        else:
+            args[0], args[1] = conv(a), conv(b)
+        try:
+            x, w = gauleg(*args)
+        except TypeError:
+            return rec.ok(case, outcome="typed:%s:%s:rejected-by-type" % (what, form), nontrivial=False, calls=2)
+        except Exception as e:
+            return rec.fail(case, "gauleg with %s given as %s raised %s: %s" % (what, form, type(e).__name__, e))
+        x, w = np.asarray(x), np.asarray(w)
+        if x.shape != xr.shape or x.dtype != np.float64 or w.dtype != np.float64 or not (np.array_equal(x, xr) and np.array_equal(w, wr)):
+            return rec.fail(case, "gauleg with %s given as %s differs from the call with Python numbers: x %r vs %r" % (what, form, x[:3].tolist(), xr[:3].tolist()))
+        rec.ok(case, outcome="typed:%s:%s" % (what, form), nontrivial=True, calls=2)
+
+    tunits = [(a, b, n, "n", f) for (a, b) in ((-1.0, 1.0), (0.0, 3.0)) for n in (1, 2, 5, 20, 100, 127) for f in ("i1", "u1", "i2", "i4", "i8", "u8", "0d")]
+    tunits += [(a, b, 200, "n", f) for (a, b) in ((-1.0, 1.0),) for f in ("u1", "i2", "i8", "u8")]
+    tunits += [(a, b, n, "ab", f) for (a, b) in ((-1.0, 1.0), (0.0, 3.0), (2.0, -4.0), (0.5, 100.0)) for n in (1, 4, 33) for f in ("f4", "f8", "0d")]
+    tunits += [(a, b, n, "ab", f) for (a, b) in ((-1.0, 1.0), (0.0, 3.0), (2.0, -4.0)) for n in (1, 4, 33) for f in ("i1", "i8", "pyint")]
+    ctx.lattice("rule-typed-parameters", tunits, one_rule_typed, bounds=dict(types=["i1", "u1", "i2", "i4", "i8", "u8", "f4", "f8", "0-d array", "Python int"]))
+
     # ----------------------------------------------------------------- exact
     def one_exact(case, rec):
         a, b, n, fam, spec = case
